@@ -156,6 +156,17 @@ class SuspenderBase(metaclass=ABCMeta):
         """Make or return the asyncio.Event to use as a bridge."""
         assert self._lock.locked()
         if self._ev is None and self.RE is not None:
+            try:
+                running_loop = asyncio.get_running_loop()
+            except RuntimeError:
+                running_loop = None
+            if running_loop is self.RE._loop:
+                # We are already on the event loop's thread (e.g. a plan
+                # installed this suspender while the signal is out of
+                # range): waiting here for the loop would only time out.
+                self._ev = asyncio.Event()
+                return self._ev
+
             th_ev = threading.Event()
 
             def really_make_the_event():
